@@ -130,16 +130,23 @@ def run(facts, res):
             b = facts.body(name)
             if b is None:
                 continue
-            for s_ in cg.sites[b.path]:
+            from ..common import inlined_sites
+
+            def stages(t, _b=b):
+                """a call that stages an object: a public operation / storage method with a write effect on the data stage
+                (the crate's private helpers are entered instead)"""
+                tb = facts.body(t.callee.target())
+                if tb is None or t.callee.virtual:
+                    return False
+                helper = tb.in_repo() and not tb.public and tb.kind != "closure" and tb.impl_trait is None and tb.impl_adt == _b.impl_adt
+                return not helper and ("datastorage::DataStorage", "stage") in eff.of(tb.path)
+            for s_ in inlined_sites(facts, b, stages):
                 t = s_.term
-                bi = s_.block
-                if t.callee is None or s_.fanout or ("datastorage::DataStorage", "stage") not in eff.site_effects(s_):
-                    continue
                 if t.callee.target() in ("melda::Melda::delete_object",):
                     continue
                 n2 += 1
                 # the object handed over for staging: whichever argument carries the reconstruction
-                cands = [arg_term(b, t, i_, 30) for i_ in range(len(t.args))]
+                cands = list(s_.args)
                 obj = next((c_ for c_ in cands if any(x[0] == "call" and x[1] == recon for x in walk(c_))), cands[-1] if cands else ("cut",))
                 calls = [x for x in walk(obj) if x[0] == "call" and x[1] == recon]
                 ok = bool(calls)
@@ -147,9 +154,9 @@ def run(facts, res):
                 for x in calls:
                     # tree argument derives from a lock on the document's tree; revision argument is the one re-asserted
                     same_tree = contains_call(x[2][2], "lock")
-                res.instance("Q2", "%s: object passed to %s derives from %s on the locked tree: %s/%s" % (name, callee, recon.rsplit("::", 1)[-1], ok, same_tree), b.loc(t.line))
+                res.instance("Q2", "%s: object passed to %s derives from %s on the locked tree: %s/%s" % (name, callee, recon.rsplit("::", 1)[-1], ok, same_tree), s_.loc())
                 if not (ok and same_tree):
-                    res.violation("Q2", "%s|reasserts-raw-value" % name, "%s re-asserts %s, which does not come from %s (the function read uses): arrays in conflict would change" % (name, fmt(obj, 5), recon), b.loc(t.line))
+                    res.violation("Q2", "%s|reasserts-raw-value" % name, "%s re-asserts %s, which does not come from %s (the function read uses): arrays in conflict would change" % (name, fmt(obj, 5), recon), s_.loc())
         res.floor("Q2", "re-assertion sites (resolve_as, stage_full_snapshot)", n2, 2)
         # the snapshot re-asserts the current winner
         sf = facts.body("melda::Melda::stage_full_snapshot")
